@@ -123,6 +123,23 @@ theorem blocks_prefix (key nonce : List Nat) {nb nb' : Nat} (h : nb ≤ nb') :
   rw [← List.flatMap_append, List.range_eq_range', List.range_eq_range', ← List.range'_append_1]
   simp
 
+/-- the first `q + m` blocks are the first `q` blocks followed by the blocks `q, …, q + m - 1` -/
+theorem blocks_split (key nonce : List Nat) (q m : Nat) :
+    blocks key nonce (q + m) = blocks key nonce q ++ (List.range m).flatMap fun i => block key nonce (q + i) := by
+  unfold blocks
+  rw [List.range_add, List.flatMap_append, List.flatMap_map]
+
+/-- dropping `64 q + r` bytes of a stream of `64 q + r + n` bytes leaves the `n` bytes that start at byte `r` of block `q` -/
+theorem window_eq (key nonce : List Nat) (q r n : Nat) :
+    (stream key nonce (64 * q + r + n)).drop (64 * q + r)
+      = (((List.range ((r + n + 63) / 64)).flatMap fun i => block key nonce (q + i)).drop r).take n := by
+  unfold stream
+  have hq : (64 * q + r + n + 63) / 64 = q + (r + n + 63) / 64 := by omega
+  have hl : (blocks key nonce q).length = 64 * q := blocks_length _ _ _
+  rw [hq, blocks_split, List.drop_take, ← List.drop_drop, ← hl, List.drop_left]
+  congr 1
+  omega
+
 /-! ### invariants of the state machine -/
 
 theorem seed_nonce (os : Nat → List Nat) (s : State) : (seed os s).nonce = s.nonce := by
